@@ -3,6 +3,7 @@ CONSTANTS
   Kinds = {"A", "B", "C"}
   MaxNest = 3
   MaxSteps = 10
+  ObjAfterMsg = TRUE
   ClearActive = TRUE
   Emit = FALSE
 VIEW view
